@@ -4,8 +4,8 @@ Correspondence: slice c10 (convert_integer via TypeSpace::add_type  vs  Integer.
 import json, itertools
 import vlib
 
-PROOF_TARGETS = ["TypifyModel.Proofs.C10", "TypifyModel.Proofs.C10Strings", "TypifyModel.Proofs.C05Convert"]
-PROOF_FILES = ["Proofs/C10.lean", "Proofs/C10Strings.lean", "Proofs/C05Convert.lean", "Proofs/Lemmas/IntegerLemmas.lean", "Proofs/Lemmas/F64.lean"]
+PROOF_TARGETS = ["TypifyModel.Proofs.C10", "TypifyModel.Proofs.C10Strings", "TypifyModel.Proofs.C05Convert", "TypifyModel.Proofs.C05ConvertArray"]
+PROOF_FILES = ["Proofs/C10.lean", "Proofs/C10Strings.lean", "Proofs/C05Convert.lean", "Proofs/C05ConvertArray.lean", "Proofs/Lemmas/IntegerLemmas.lean", "Proofs/Lemmas/F64.lean"]
 # independent statement of the string-format clause: the documented formats and their types; anything else is a String
 DOCUMENTED = {"uuid": "::uuid::Uuid", "date": "::chrono::naive::NaiveDate", "date-time": "::chrono::DateTime<::chrono::offset::Utc>",
               "ip": "::std::net::IpAddr", "ipv4": "::std::net::Ipv4Addr", "ipv6": "::std::net::Ipv6Addr"}
@@ -234,6 +234,52 @@ def convert_string_stage(ctx, st):
             if norm(r_) != norm(m_): dis.append({"schema": sc, "impl": r_, "model": m_})
     return {"evaluations": len(schemas), "disagreements": dis, "answers": {k: sum(1 for r_ in real if r_.split(" ")[0] == k) for k in ("plain", "constrained", "native", "err")}}
 
+def convert_array_stage(ctx, st):
+    """M0 for the model of convert_array (Model/ConvertArray.lean, theorems Proofs/C05ConvertArray.lean): the keyword lattice
+    items x additionalItems x (minItems, maxItems) x uniqueItems x contains, one document per schema"""
+    import m2, irutil
+    S, I, B = {"type": "string"}, {"type": "integer"}, {"type": "boolean"}
+    schemas = []
+    for items in (None, S, [S], [S, I], [S, I, B]):
+        for addl in (None, B):
+            for mn, mx in ((None, None), (2, 2), (0, 0), (1, 2), (None, 2), (2, None), (3, 3), (1, 1)):
+                for uq in (None, True, False):
+                    for ct in (None, S):
+                        sc = {"type": "array"}
+                        if items is not None: sc["items"] = items
+                        if addl is not None: sc["additionalItems"] = addl
+                        if mn is not None: sc["minItems"] = mn
+                        if mx is not None: sc["maxItems"] = mx
+                        if uq is not None: sc["uniqueItems"] = uq
+                        if ct is not None: sc["contains"] = ct
+                        schemas.append(sc)
+    ans = m2.tvh_ir([{"settings": {}, "calls": [{"root": {"definitions": {"T": sc}}}]} for sc in schemas])
+    real = []
+    for sc, a in zip(schemas, ans):
+        if a.get("aborted"): real.append("abort"); continue
+        if not (a.get("calls") and a["calls"][-1].startswith("ok")):
+            real.append("err " + (a["calls"][-1].split(":", 1)[1] if a.get("calls") and ":" in a["calls"][-1] else a["calls"][-1] if a.get("calls") else "?")); continue
+        es = irutil.entries(a["dump"]); nm = irutil.named(a["dump"])
+        if "T" not in nm: real.append("no-type"); continue
+        inner = es.get(nm["T"][1].get("type_id"), {})
+        kind = lambda i: "any" if es.get(i, {}).get("kind") == "json_value" else "typed"
+        k = inner.get("kind")
+        if k == "tuple":
+            ids = inner["ids"]; n = len(ids); given = len(sc["items"]) if isinstance(sc.get("items"), list) else 0
+            fi = min(given, n)
+            rest = "-" if fi >= n else ("additional" if es.get(ids[-1], {}).get("kind") == "boolean" else "any" if es.get(ids[-1], {}).get("kind") == "json_value" else "?")
+            real.append("tuple n=%d from_items=%d rest=%s" % (n, fi, rest))
+        elif k == "array": real.append("array n=%d item=%s" % (inner.get("len", -1), kind(inner.get("id"))))
+        elif k == "vec": real.append("vec item=" + kind(inner.get("id")))
+        elif k == "set": real.append("set item=" + kind(inner.get("id")))
+        else: real.append("other " + json.dumps(inner)[:120])
+    model = vlib.run_side("model", "c10", [json.dumps(sc, sort_keys=True) for sc in schemas], "arrmodel") if st["driver_ok"] else None
+    dis = []
+    if model is not None:
+        for sc, r_, m_ in zip(schemas, real, model):
+            if r_ != m_: dis.append({"schema": sc, "impl": r_, "model": m_})
+    return {"evaluations": len(schemas), "disagreements": dis, "answers": {k: sum(1 for r_ in real if r_.split(" ")[0] == k) for k in ("tuple", "array", "vec", "set", "err")}}
+
 def run(ctx):
     findings = vlib.load_findings("C10")
     st = vlib.proof_stage(ctx, "C10", PROOF_TARGETS, PROOF_FILES, slices=["c10"])
@@ -289,6 +335,11 @@ def run(ctx):
     if cs_["disagreements"]:
         broken.append("correspondence M0 (convert_string): model and implementation disagree on %d string schemas, e.g. %s"
                       % (len(cs_["disagreements"]), json.dumps(cs_["disagreements"][0])[:300]))
+    ca_ = convert_array_stage(ctx, st)
+    ctx.log("convert_array model (M0): %d schemas, %d disagreements, answers %r" % (ca_["evaluations"], len(ca_["disagreements"]), ca_["answers"]))
+    if ca_["disagreements"]:
+        broken.append("correspondence M0 (convert_array): model and implementation disagree on %d array schemas, e.g. %s"
+                      % (len(ca_["disagreements"]), json.dumps(ca_["disagreements"][0])[:300]))
     for fl in sf["fails"][:3]:
         vlib.violation(ctx, {"property": "C10", "kind": "implementation violates the property", "failed_clause": "string format -> documented type / String",
                              "input": fl["schema"], "detail": fl, "broken_obligations": broken})
@@ -326,6 +377,8 @@ def run(ctx):
         "tables_regenerated": st["tables_ok"],
         "convert_string_model": {"evaluations": cs_["evaluations"], "disagreements": cs_["disagreements"][:5], "answers": cs_["answers"],
                                  "theorems": ["C05C.convert_string_exact", "C05C.convert_string_uses_regress", "C05C.convert_string_format_ignores_validation", "C05C.convert_string_format_drops"]},
+        "convert_array_model": {"evaluations": ca_["evaluations"], "disagreements": ca_["disagreements"][:5], "answers": ca_["answers"],
+                                "theorems": ["C05A.tuple_arity", "C05A.array_len", "C05A.positional_items_need_fixed_length"]},
         "string_formats": {"evaluations": sf["evaluations"], "selected": sf["selected"], "table_model_disagreements": sf["disagreements"][:5],
                            "oracle_failures": len(sf["fails"]),
                            "theorems": ["C10S.string_formats_documented", "C10S.string_format_unrecognised", "C10S.string_formats_known", "C10S.string_formats_functional", "C10S.string_formats_uses"]},
